@@ -42,10 +42,10 @@ def BURST(test):
 
 PROPS = {
     "C01": {"level": "exploration", "assumptions": SIM_ASSUME, "parts": [sim("TestC01"), BURST("TestC01Burst")]},
-    "C02": {"level": "exploration", "assumptions": SIM_ASSUME, "parts": [sim("TestC02", q=(300, 4), t=(4000, 16)), sim("TestC02Graphs", q=(600, 4), t=(20000, 16))]},
+    "C02": {"level": "exploration", "assumptions": SIM_ASSUME, "parts": [sim("TestC02", q=(300, 4), t=(4000, 16)), sim("TestC02Graphs", q=(600, 4), t=(20000, 16)), rp("procs", "TestC02Real", (12, 2), (300, 8), helpers=["cmd/vhelper"])]},
     "C03": {"level": "exploration", "assumptions": SIM_ASSUME, "parts": [sim("TestC03"), STORM("TestC03Storm"),
                                                                                {"pkg": "sim", "test": "TestC03Real", "quick": {"checks": 2, "shards": 1, "shrink": "5s", "timeout": "10m"}, "thorough": {"checks": 60, "shards": 4, "shrink": "30s", "timeout": "2h"}}]},
-    "C04": {"level": "exploration", "assumptions": SIM_ASSUME, "parts": [sim("TestC04"), rp("procs", "TestC04Real", (12, 2), (300, 8), helpers=["cmd/vhelper"])]},
+    "C04": {"level": "exploration", "assumptions": SIM_ASSUME, "parts": [sim("TestC04"), rp("procs", "TestC04Real", (24, 3), (300, 8), helpers=["cmd/vhelper"])]},
     "C05": {"level": "exploration", "assumptions": SIM_ASSUME, "parts": [sim("TestC05"), BURST("TestC05Burst")]},
     "C06": {"level": "exploration", "assumptions": SIM_ASSUME, "parts": [sim("TestC06"), STORM("TestC06Storm")]},
     "C07": {"level": "exploration", "assumptions": SIM_ASSUME, "parts": [sim("TestC07Sim"),
